@@ -107,6 +107,27 @@ def labelled_programs(rng, n_per=1):
                             shadow += [("GLOBAL", ("collections", "_var0")), "POP"]
                         body = prog[:-1] + ["POP"] + shadow + ["NONE", "STOP"]
                         out.append(("shadow:" + kind, asm.assemble(body)))
+    # memo traffic that only the real VM's MEMOIZE rule explains (it stores at index len(memo), even over
+    # a slot a sparse PUT filled): a benign decoy is PUT at key n+1, then the callee is MEMOIZEd -- which
+    # overwrites that slot -- and fetched back with GET n+1 before it is called (seeded change C04-2)
+    for m, a, label in vocab:
+        if rng.random() > 0.5 * n_per and label not in ("bad_call",):
+            continue
+        for call in ("REDUCE", "OBJ"):
+            for n0 in (0, 2):
+                pre = []
+                for j in range(n0):
+                    pre += [("BININT1", j), ("BINPUT", j), "POP"]
+                key = n0 + 1
+                decoy = [("GLOBAL", ("collections", "OrderedDict")), ("BINPUT", key), "POP"]
+                callee = [("GLOBAL", (m, a)), "MEMOIZE", "POP"]
+                arg = ("SHORT_BINUNICODE", "id")
+                if call == "REDUCE":
+                    tail = [("BINGET", key), "MARK", arg, "TUPLE", "REDUCE"]
+                else:
+                    tail = ["MARK", ("BINGET", key), arg, "OBJ"]
+                out.append((f"{label}/GLOBAL/{call}/memo-clobber{n0}",
+                            asm.assemble(pre + decoy + callee + tail + ["STOP"])))
     return out
 
 
